@@ -130,6 +130,8 @@ class Run:
                           default=repr)
             print(f'VIOLATION property={self.prop} replay={path}')
             print(f'  {what}')
+        elif os.environ.get('VERIF_VERBOSE'):
+            print(f'  + {what[:300]}')
         self.violations.append({'what': what, 'sig': sig, 'replay': path})
         return True
 
